@@ -65,6 +65,41 @@ def run_store(cases, res):
         if io['status'][:2] != (so, su):
             res.fail(c, 'C19: overflow/underflow flag wrong when storing a Python integer', expected=(so, su), got=io['status'][:2])
 
+def arith_items(rng, n):
+    import arithlib as A
+    items = []
+    while len(items) < n:
+        def f():
+            nw = rng.choice([2, 8, 16, 26, 27, 31, 32, 33, 40, 48, 52, 53, 54, 60, 61, 62, 63, 64, 65, 66, 70, rng.randint(2, 70)])
+            nf = rng.choice([0, 0, 1, nw // 2, nw - 1, nw, rng.randint(0, nw)])
+            return (rng.random() < 0.55, nw, nf)
+        fxm, fym = f(), f()
+        op = rng.choice('+-*')
+        def codes(fm):
+            lo, hi = S.fmt_bounds(fm[0], fm[1])
+            k = rng.random()
+            if k < 0.4: return [rng.choice([lo, hi])]
+            if k < 0.7: return [rng.choice([lo + rng.randint(0, 3), hi - rng.randint(0, 3)])]
+            return [rng.randint(lo, hi)]
+        cx, cy = codes(fxm), codes(fym)
+        if rng.random() < 0.2:
+            cx = cx + codes(fxm) + codes(fxm); cy = cy + codes(fym) + codes(fym)
+            items.append((op, fxm, cx, (3,), fym, cy, (3,), rng.choice(['operator', 'func']), {}))
+        else:
+            items.append((op, fxm, cx, None, fym, cy, None, rng.choice(['operator', 'func', 'numpy']), {}))
+    return items
+
+def arith(rng, tier, nshards, res):
+    import c07
+    before = len(res.failures)
+    c07.check_pairs(arith_items(rng, (5000 if tier == 'quick' else 120000) // nshards), res, 'A:add-sub-mul-wide')
+    for fl in res.failures[before:]:
+        fl['what'] = fl['what'].replace('C07:', 'C19:')
+
+def replay_arith(c, res):
+    import c07
+    c07.check_pairs([(c['op'], tuple(c['x']), c['cx'], tuple(c['shape_x']) if c['shape_x'] else None, tuple(c['y']), c['cy'], tuple(c['shape_y']) if c['shape_y'] else None, c['route'], c.get('cfg', {}))], res, 'replay')
+
 def shard(shard, nshards, rng, tier, extra):
     res = Result()
     run_store(store_cases(rng, (6000 if tier == 'quick' else 150000) // nshards), res)
